@@ -19,7 +19,7 @@ RULE = ("Hypothesis byte-backed generator: 1-4 command lines with multi-unit res
         "as an interleaving at token boundaries of the two solo outputs, each in its own order; command tokens byte-for-byte, each newline of an event token LF or CRLF; "
         "tokens are LF-terminated chunks (never finer than the library's emission units). Non-trivial = the mixed output contains event units strictly between "
         "command units and at least one write was refused; distinct by case hash.")
-ASSUMPTIONS = ["events are triggered by harness actions only (no chains), event commands are disjoint from line commands and have no description (the newline before it mirrors the line in progress, so whether the text fits would depend on timing), no HOLD",
+ASSUMPTIONS = ["events are triggered by harness actions only (no chains), event commands are disjoint from line commands and have no description (the newline before it mirrors the line in progress, so whether the text fits would depend on timing); in a third of the cases command handlers may return HOLD, released by cat_hold_exit with one status per case (at generated steps in the mixed run, on stall in both runs), so a held line's response does not depend on which request releases it",
                "payloads contain no CR/LF except the library's own newline before a TEST description (tokenised one level finer, which only makes the matcher more permissive)",
                "an unsolicited unit's newlines mirror the command line in progress and may be LF or CRLF independently"]
 TECHNIQUE = "Hypothesis property-based testing; oracle = metamorphic interleaving match (dynamic programming) of the mixed run against the two solo runs on the real library"
@@ -29,6 +29,7 @@ LEVEL_NOTE = "Trusted: world harness, the token matcher, Hypothesis."
 DESIGN_REF = "DESIGN.md section 5 C11"
 
 CODES = [OK, DATA_OK, DATA_NEXT, DATA_NEXT, NEXT, ERR, LIST]
+CODES_HOLD = CODES + [S.HOLD, S.HOLD]
 
 
 def gen(d, tier):
@@ -43,6 +44,13 @@ def gen(d, tier):
             for k in "rt":
                 c["scripts"]["1" + k] = [S.mk_step(d.pick([DATA_NEXT, DATA_NEXT, DATA_OK, NEXT, OK, ERR]), d.below(3), d.pick(E.EV_TAGS)) for _ in range(d.rng(1, 6))]
             evs.append(c)
+    for c in evs:
+        # flags that concern the input stream only: an accepted event is delivered whatever they say
+        if d.unlikely(1, 6):
+            c["only_test"] = 1
+        if d.unlikely(1, 8):
+            c["disable"] = 1
+    holds = d.unlikely(1, 3)       # a third of the cases: handlers may return HOLD, released from outside at generated steps
     lcs = []
     for j in range(d.rng(1, 3)):
         h = "".join(k for k in "wrnt" if d.chance(2, 3)) or "r"
@@ -50,7 +58,7 @@ def gen(d, tier):
                      desc=(b"help" if d.unlikely(1, 3) else None))
         for k in h:
             if d.chance(2, 3):
-                c["scripts"]["0" + k] = [S.mk_step(d.pick(CODES), d.below(3) if k in "rt" else 0, d.pick([b"tag", b"x", b"Hello", b"0123456789"])) for _ in range(d.rng(1, 5))]
+                c["scripts"]["0" + k] = [S.mk_step(d.pick(CODES_HOLD if holds else CODES), d.below(3) if k in "rt" else 0, d.pick([b"tag", b"x", b"Hello", b"0123456789"])) for _ in range(d.rng(1, 5))]
         lcs.append(c)
     cmds = evs + lcs
     nev = len(evs)
@@ -65,6 +73,17 @@ def gen(d, tier):
     for _ in range(d.rng(1, 10)):
         step += d.pick([0, 1, 2, 3, 5, 8, 13, 20, 35, 60, 100])
         actions.append([S.AT_STEP, step, S.WA_TRIG, d.below(nev), d.below(2), None])
+    if holds:
+        # one release status per case, so that a held line's result code does not depend on which request releases it; requests at
+        # generated steps (often while an event unit is being formatted or written; outside a hold they have no effect), and a fallback
+        # whenever the parser stalls
+        st = d.below(2)
+        step = 0
+        for _ in range(d.rng(1, 8)):
+            step += d.pick([1, 2, 3, 5, 8, 13, 20, 35, 60])
+            actions.append([S.AT_STEP, step, S.WA_HOLDEXIT, st, 0, None])
+        for k in range(1, 12):
+            actions.append([S.AT_STALL, k, S.WA_HOLDEXIT, st, 0, None])
     ws = []
     for j in range(d.below(16)):
         ws.append(d.pick([0, 1, 1, 2, 3, 5, 9]) if j % 2 == 0 else d.pick([1, 1, 2, 3, 8, 25, 60]))
@@ -145,7 +164,7 @@ def run(case, W):
     accepted = [(a.args[0], a.args[1]) for a in tm.apis if a.name == "trig" and a.result == 0]
     # lines alone
     sc = S.clone(s)
-    sc["actions"] = []
+    sc["actions"] = [a for a in s["actions"] if a[0] == S.AT_STALL and a[2] == S.WA_HOLDEXIT]
     sc["rs"] = []
     sc["ws"] = []
     tcr = W.run(sc, "plain")
@@ -172,6 +191,9 @@ def run(case, W):
     for lead, body, nl in tu:
         if body.startswith(b"#") and not lead:
             return Result(violation=("unit-structure", "event unit %r has no leading newline (events-alone output %r)" % (body, tur.out)), runs=3)
+    for lead, body, nl in tu:
+        if not body.startswith(b"#"):
+            return Result(violation=("unit-structure", "the events-only run (no input at all) emitted %r, which is no event unit (output %r)" % (body, tur.out)), runs=3)
     if tc and not tc[0][0]:
         return Result(violation=("unit-structure", "first command unit %r has no leading newline" % (tc[0][1],)), runs=3)
     ok, best = match(tm.out, tc, tu)
@@ -194,6 +216,8 @@ def run(case, W):
         labels.append("command-list-or-description")
     if any(h.code == DATA_NEXT for h in tm.handlers):
         labels.append("multi-unit-response")
+    if any(h.code == S.HOLD for h in tm.handlers):
+        labels.append("hold")
     return Result(labels=labels, nontrivial=(between and tm.q["refused_w"] >= 1), runs=3)
 
 
